@@ -50,8 +50,22 @@ impl PanicRec {
     pub fn norm_msg(&self) -> String {
         norm_msg(&self.msg)
     }
+    /// signature of a panic observed at `entry`: dependency-level defects keep their own signature
+    pub fn sig_at(&self, entry: &str) -> String {
+        let s = self.sig();
+        if s.starts_with("cbor_event/") {
+            s
+        } else {
+            format!("{}/{}", entry, s)
+        }
+    }
     /// signature used for known-finding matching: site + normalised message
     pub fn sig(&self) -> String {
+        // one dependency defect reached below many serializers (overflow-checking build only):
+        // keyed by the dependency location, not by whichever library frame called it
+        if self.msg.contains("attempt to negate with overflow") && self.loc.contains("cbor_event") {
+            return "cbor_event/write_negative_integer/negate-overflow-for-minus-2^63".to_string();
+        }
         format!("panic@{}:{}", self.site, self.norm_msg())
     }
 }
